@@ -119,7 +119,7 @@ func (c02) Run(c *fw.Ctx) {
 			}
 		}
 		if op.Kind == "" {
-			op = genOp(r, l, s.now, histOpts{noReopen: true, maxBatch: 30, hostileValues: hostile})
+			op = genOp(r, l, s.now, histOpts{noReopen: true, maxBatch: 30, hostileValues: hostile, futureBatch: c.Index%5 == 1})
 		}
 		if op.Kind == "advance" {
 			s.now += op.Delta
